@@ -56,6 +56,7 @@ def make_case(seed, index, roundtrip=False):
     came_from_inside = set()            # outside folders (and what is below them) that were moved out of the root earlier
     k21 = False
     renamed, deleted = set(), set()
+    hopped = set()
     for _ in range(rng.randrange(5, 13)):
         r = rng.random()
         op = None
@@ -86,6 +87,10 @@ def make_case(seed, index, roundtrip=False):
         elif r < 0.8:
             # move out: an inside file or folder to a fresh outside name
             cands = [q for q in m.t if q not in getattr(g, "_chain", set()) or side not in g._pathid_sides]     # pylint: disable=protected-access
+            if side in g._pathid_sides:                                                                  # pylint: disable=protected-access
+                # path-id acting side: an object that crossed the boundary in this window does not cross again before the
+                # next quiet point (a chain of renames of one object inside a window is hazard HC, finding K15)
+                cands = [q for q in cands if q not in hopped]
             if not cands:
                 continue
             q = rng.choice(cands)
@@ -99,6 +104,7 @@ def make_case(seed, index, roundtrip=False):
             if isdir:
                 came_from_inside.add(dst)
             op = {"side": side, "op": "rendir" if isdir else "rename", "path": q, "to": dst, "obj": 0, "cross": "out"}
+            hopped.add(dst)
             crossings += 1
         else:
             # move in: an outside file or folder (not a zone folder itself) to a fresh inside name
@@ -110,6 +116,8 @@ def make_case(seed, index, roundtrip=False):
             if not roundtrip:
                 # a folder that was moved out of the root earlier is not moved back in (hazard HO, finding K21)
                 cands = [q for q in cands if not round_trip(q)]
+            if side in g._pathid_sides:                                                                  # pylint: disable=protected-access
+                cands = [q for q in cands if q not in hopped]
             if not cands:
                 continue
             q = rng.choice(cands)
@@ -122,18 +130,22 @@ def make_case(seed, index, roundtrip=False):
             for old in moved:
                 m.t[dst + old[len(q):]] = outside.t.pop(old)
             op = {"side": side, "op": "rendir" if isdir else "rename", "path": q, "to": dst, "obj": 0, "cross": "in"}
+            hopped.add(dst)
+            g._chain = getattr(g, "_chain", set()) | {dst}                                                # pylint: disable=protected-access
             crossings += 1
         if op is None:
             continue
         if op["op"] == "rendir":
             sched += [["Q"], ["U", op], ["Q"]]
             g._chain = set()                                                                             # pylint: disable=protected-access
+            hopped = set()
         else:
             sched.append(["U", op])
             gap = g.gap(shape)
             sched.extend(gap)
             if ["Q"] in gap:
                 g._chain = set()                                                                         # pylint: disable=protected-access
+                hopped = set()
     expect = dict(m.t)
     if decline:
         expect = {k: v for k, v in expect.items() if not (k == "private" or k.startswith("private/"))}
